@@ -125,3 +125,27 @@ func VerifWriteRequestHeaders(req *http.Request, gzip bool) ([]byte, error) {
 type writeCollector struct{ b []byte }
 
 func (c *writeCollector) Write(p []byte) (int, error) { c.b = append(c.b, p...); return len(p), nil }
+
+// VerifParseNextBody runs frameParser.ParseNext the way stream.Read does for a message body
+// (bodyStream: true, no unknownFrameHandler).
+func VerifParseNextBody(r io.Reader) (fr VerifFrame, closedCode int64, err error) {
+	conn := &verifConn{closed: -1}
+	fp := &frameParser{r: r, conn: conn, bodyStream: true}
+	f, err := fp.ParseNext()
+	if err != nil {
+		return VerifFrame{}, conn.closed, err
+	}
+	return verifProject(f), conn.closed, nil
+}
+
+// VerifRequestWriter is one connection's requestWriter (one QPACK encoder, one header buffer),
+// shared by all requests of the connection.
+type VerifRequestWriter struct{ w *requestWriter }
+
+func VerifNewRequestWriter() *VerifRequestWriter { return &VerifRequestWriter{w: newRequestWriter()} }
+
+// WriteHeaders runs requestWriter.writeHeaders (what WriteRequestHeader hands to the stream) with
+// wr standing for the stream.
+func (v *VerifRequestWriter) WriteHeaders(wr io.Writer, req *http.Request, gzip bool) error {
+	return v.w.writeHeaders(wr, req, gzip, nil)
+}
